@@ -8,6 +8,7 @@
 //! a replay goes through exactly the same path as the original run.
 mod fam_access;
 mod fam_dyn;
+mod fam_fee;
 mod fam_pmod;
 mod fam_admission;
 mod fam_liq;
@@ -68,6 +69,7 @@ pub fn families() -> Vec<Box<dyn Family>> {
     fam_admission::register(&mut v);
     fam_dyn::register(&mut v);
     fam_pmod::register(&mut v);
+    fam_fee::register(&mut v);
     v
 }
 
@@ -79,7 +81,9 @@ pub fn catch<F: FnOnce() -> String + std::panic::UnwindSafe>(f: F) -> String {
 }
 
 fn main() {
-    std::panic::set_hook(Box::new(|_| {}));
+    if std::env::var("WPH_PANIC_TRACE").is_err() {
+        std::panic::set_hook(Box::new(|_| {}));
+    }
     let args: Vec<String> = std::env::args().collect();
     if args.len() < 2 {
         eprintln!("usage: wph gen|replay|families ...");
